@@ -697,3 +697,129 @@ new_h!(procfs_global_handle_init_fault, {
     let _ = h.is_subset;
     kani::cover!(true, "reached");
 });
+
+
+// ---------------------------------------------------------------------------
+// C08 again, cheaper: the retry LOGIC of `open` with its constituents replaced by contracts
+// (open_base and verify_same_procfs_mnt are decided for real in the okpath/lookup_fails harnesses).
+// The fully real two-level variant above needs > 30 GB.
+
+impl ProcfsHandle {
+    pub(crate) fn k_open_base(&self, _base: ProcfsBase) -> Result<OwnedFd, Error> {
+        let k = kmut();
+        let mut c = NO_CALL;
+        c.kind = C_PROC_RESOLVE;
+        c.dirfd = self.inner.as_raw_fd();
+        c.flags = 0xba5e;
+        if k.fails() {
+            c.errno = any_errno();
+            k.push(c);
+            Err(ErrorImpl::OsError { operation: "stub".into(), source: IOError::from_raw_os_error(c.errno) }.into())
+        } else {
+            let fd = k.new_fd(O_PROC_RESOLVER, c.dirfd, false, 0);
+            c.ok = true;
+            c.ret_fd = fd;
+            k.push(c);
+            Ok(owned_fd(fd))
+        }
+    }
+
+    pub(crate) fn k_verify_same_procfs_mnt<Fd: AsFd>(&self, fd: Fd) -> Result<(), Error> {
+        let raw = fd.as_fd().as_raw_fd();
+        let k = kmut();
+        k.touch(raw);
+        let mut c = NO_CALL;
+        c.kind = C_STATX;
+        c.dirfd = raw;
+        c.flags = 0x7e1f;
+        if let Some(i) = k.idx(raw) {
+            k.fds[i].statx_seen = true;
+            k.fds[i].statfs_seen = true;
+        }
+        if k.fails() {
+            c.errno = libc::EXDEV;
+            k.push(c);
+            Err(ErrorImpl::OsError { operation: "stub".into(), source: IOError::from_raw_os_error(libc::EXDEV) }.into())
+        } else {
+            c.ok = true;
+            k.push(c);
+            Ok(())
+        }
+    }
+}
+
+/// plan: [0] open_base [1] sub-path lookup [2] verify  [3] new_unmasked  [4] open_base' [5] lookup' [6] verify'
+fn retry_body(plan: [u8; 8], fixed_errno: i32, retry_handle: u64, masked: bool) {
+    install_close_model();
+    reset(3);
+    crate::verif_kani::kernel::counter_reset();
+    crate::verif_kani::kernel::scratch_set(retry_handle, 0, 0, 0);
+    {
+        let k = kmut();
+        let mut i = 0;
+        while i < 8 {
+            k.plan[i] = plan[i];
+            i += 1;
+        }
+        k.fixed_errno = fixed_errno;
+    }
+    let hfd = given_fd(false);
+    let h = ProcfsHandle::verif_make(hfd, kani::any(), masked, kani::any());
+    let bits: i32 = kani::any();
+    let res = h.open(ProcfsBase::ProcSelf, Path::new("x"), OpenFlags::from_bits_retain(bits));
+    let (ok, retfd, kind) = match &res {
+        Ok(f) => (true, f.as_raw_fd(), None),
+        Err(e) => (false, -1, Some(cheap_kind(e))),
+    };
+    std::mem::forget(res);
+    std::mem::forget(h);
+    let k = kref();
+    assert!(!k.any_violation());
+    let retries = crate::verif_kani::kernel::counter_get(0);
+    // at most ONE retry handle per lookup, and only for ENOENT on a masked handle
+    assert!(retries <= 1);
+    if !masked {
+        assert!(retries == 0);
+    }
+    if retries == 1 {
+        assert!(masked && k.ncalls >= 2 && !k.log[1].ok && k.log[1].errno == libc::ENOENT);
+    }
+    if ok {
+        // whatever is returned was verified by the handle that produced it
+        let e = k.ent(retfd).unwrap();
+        assert!(e.statx_seen && e.statfs_seen);
+    } else if fixed_errno == libc::ENOENT && plan[0] == P_OK && plan[1] == P_FAIL {
+        // a path that does not exist is reported as ENOENT (not as the retry machinery's error)
+        if retry_handle == 2 || plan[3] == P_FAIL {
+            assert!(kind == Some(ErrorKind::OsError(Some(libc::ENOENT))));
+        }
+    }
+    // descriptors: the handle + the returned one; the retry handle and both base dirs are closed
+    assert!(k.n_open() == 1 + if ok { 1 } else { 0 });
+    kani::cover!(retries == 1 && ok, "retry succeeded on the unmasked handle");
+    kani::cover!(retries == 1 && !ok, "retry did not help");
+    kani::cover!(retries == 0, "no retry");
+}
+
+macro_rules! retry_h {
+    ($name:ident, $plan:expr, $errno:expr, $rh:expr, $masked:expr) => {
+        #[kani::proof]
+        #[kani::unwind(18)]
+        #[kani::stub(crate::procfs::ProcfsHandle::open_base, crate::procfs::ProcfsHandle::k_open_base)]
+        #[kani::stub(crate::procfs::ProcfsHandle::verify_same_procfs_mnt, crate::procfs::ProcfsHandle::k_verify_same_procfs_mnt)]
+        #[kani::stub(crate::resolvers::procfs::ProcfsResolver::resolve, k_proc_resolve)]
+        #[kani::stub(crate::procfs::ProcfsHandle::new_unmasked, k_new_unmasked)]
+        #[kani::stub(alloc::fmt::format, k_format)]
+        fn $name() {
+            retry_body($plan, $errno, $rh, $masked);
+        }
+    };
+}
+// masked handle, ENOENT, retry on a really unmasked handle: arbitrary outcome there
+retry_h!(procfs_retry_unmasked_handle, [P_OK, P_FAIL, P_ANY, P_OK, P_ANY, P_ANY, P_ANY, P_ANY], libc::ENOENT, 1, true);
+// masked handle, ENOENT, the "unmasked" handle is masked again and also says ENOENT: must stop after one retry
+retry_h!(procfs_retry_masked_again, [P_OK, P_FAIL, P_ANY, P_OK, P_OK, P_FAIL, P_ANY, P_ANY], libc::ENOENT, 2, true);
+// masked handle, ENOENT, creating the retry handle fails: the original ENOENT is reported
+retry_h!(procfs_retry_handle_creation_fails, [P_OK, P_FAIL, P_ANY, P_FAIL, P_ANY, P_ANY, P_ANY, P_ANY], libc::ENOENT, 1, true);
+// masked handle, lookup fails with EACCES: not retried
+retry_h!(procfs_retry_not_for_other_errno, [P_OK, P_FAIL, P_ANY, P_ANY, P_ANY, P_ANY, P_ANY, P_ANY], libc::EACCES, 1, true);
